@@ -772,10 +772,10 @@ def check_bind_update(res, prop, cm, roles, m, b):
     if why is None and roles.kind != 'maplist':
         for f, target in roles.backptrs.items():
             ws = [e for e in effs if e.kind == 'BACKPTR' and e.field == f and same_ent(e.ent, S)]
-            if len(ws) != 1:
-                why = 'back-pointer %s of the bound slot is written %d times' % (f, len(ws))
+            if not ws:
+                why = 'back-pointer %s of the bound slot is written 0 times' % f
                 break
-            w = ws[0]
+            w = ws[-1]          # the last store is the state the operation leaves (reads in between are forwarded by the engine)
             good = False
             if target == 'index':
                 good = w.val == ('fld', bd.res, 'first') or (is_ld(w.val) and w.val[2] == ('fld', bd.res, 'first'))
@@ -785,6 +785,18 @@ def check_bind_update(res, prop, cm, roles, m, b):
                 # the node whose payload is the bound slot id
                 sid = bd.sid
                 good = is_ld(sid) and sid[2][0] == 'deref' and sid[2][1] == w.val
+                if not good:
+                    # another name for the same node (`begin()` right after the node was spliced to the head): the list-position
+                    # domain resolves both the stored iterator and the bound slot's node
+                    try:
+                        from pos import PosSim, Node
+                        sim = PosSim(seg, roles)
+                        sim.run()
+                        n1, n2 = sim.memo.get(w.val), sim.memo_node(sid)
+                        good = (not sim.unknown and not getattr(sim, 'infeasible', False)
+                                and isinstance(n1, Node) and n1 is n2)
+                    except Exception:
+                        good = False
             elif target == 'perm':
                 # the stored position p must be where the open list holds the bound slot: either the slot id was read from
                 # m_open_list[p], or the path itself wrote the slot id to m_open_list[p]
@@ -984,6 +996,16 @@ def check_ctor_shape(an, res, prop, cm, roles):
             probs.append('%s is not numbered 0..capacity-1 over its whole range exactly once' % ids)
     if roles.part and roles.order:
         v = wrs.get(THIS(roles.part))
+        if v is None and THIS(roles.part) in inits:
+            # member initialiser `m_end(m_list.begin())`: members are initialised in declaration order, so the list has to be
+            # declared (hence sized) before the partition iterator
+            names = [f.name for f in cm.fields]
+            if names.index(roles.order) < names.index(roles.part):
+                v = inits[THIS(roles.part)]
+                if isinstance(v, tuple) and v[0] == 'ctor' and len(v[2]) == 1:
+                    v = v[2][0]
+            else:
+                probs.append('%s is initialised from %s before that member is constructed' % (roles.part, roles.order))
         if not (isinstance(v, tuple) and v[0] == 'q' and v[1] in ('begin', 'cbegin') and v[2] == THIS(roles.order)):
             probs.append('%s does not start at the head of %s' % (roles.part, roles.order))
     if roles.counter:
